@@ -4,7 +4,8 @@
     torch's deterministic element-wise functions); [fs] are ANY node functions of the form their op-kind dictates. *)
 From Coq Require Import ZArith QArith List Bool Arith PeanoNat Permutation.
 From Leaspy Require Import Sampler.SamplerModel Saem.Anneal Sampler.AdaptiveStd Api.Personalize Api.PersonalizeChain Api.PersonalizeChainProofs
-  Compose.ChainLocality Compose.ChainLocalityProofs Compose.ChainLocalityExamples.
+  Compose.ChainLocality Compose.ChainLocalityProofs Compose.ChainLocalityExamples
+  Compose.ChainGraph Compose.ChainGraphProofs Compose.ChainGraphShipped.
 From Leaspy Require Import Locality.AxisTypes Locality.AxisProofs Locality.SamplerRows Locality.SamplerRowsProofs
   Locality.Shipped Locality.AxisExamples Locality.SamplerReadsTie.
 From LeaspyGen Require Import GenC07 GenC07Reads.
@@ -307,3 +308,102 @@ Theorem C07_chain_example :
     existsb (fun kl => existsb (fun r => negb (Bool.eqb (nth 0 (sr_acc r) false) (nth 1 (sr_acc r) false))) (snd kl)) (o_trace o) = true.
 Proof. exact chain_local_example. Qed.
 Print Assumptions C07_chain_example.
+
+(** Extension 4 — the oracle hypotheses of [C07_chain_local] discharged.  An oracle DEFINED by the graph evaluation — entry j = a
+    function [h] of row j of the nodes [xs] in [eval G fs (inputs_of lat base st) n], where the individual latent variable at
+    position v of the chain's state is the input of node [nth v lat] and every other independent node holds the fixed [base] —
+    is [row_local] as soon as the checker types the nodes [xs] as [LInd] and the two cohorts hold the same population inputs and
+    the same data rows for the individual. *)
+Theorem C07_oracle_row_local : forall (A : Type) (add : A -> A -> A) (G : graph) (fs : nat -> nodefun A) (lat : list nat)
+    (n1 n2 j1 j2 : nat), (j1 < n1)%nat -> (j2 < n2)%nat -> forall (sizes : list nat) (base1 base2 : nat -> value A),
+  indep_inputs_related A G (fun v1 v2 => reindex A [j1] v1 = reindex A [j2] v2) base1 base2 ->
+  forall xs h, forallb (level_is G LInd) xs = true ->
+  row_local n1 n2 j1 j2 sizes (graph_oracle A add G fs lat base1 n1 xs h) (graph_oracle A add G fs lat base2 n2 xs h).
+Proof. exact row_local_of_graph. Qed.
+Print Assumptions C07_oracle_row_local.
+
+(** ... hence [C07_chain_local] with NO hypothesis on the oracles: attachment, per-variable regularity and summed regularity are
+    the evaluation of [LInd] nodes ([xa], [xr v], [xs]; any row-wise read-outs) of the graph. *)
+Theorem C07_chain_local_graph : forall (A : Type) (add mul : A -> A -> A) (ofQ : Q -> A) (decide : A -> A -> A -> A -> A -> A -> bool)
+    (gadd : A -> A -> A) (G : graph) (fs : nat -> nodefun A) (lat : list nat) (base1 base2 : nat -> value A)
+    (xa : list nat) (xr : nat -> list nat) (xs : list nat) (ha : list (row A) -> option A) (hr : nat -> list (row A) -> option A)
+    (hs : list (row A) -> option A)
+    (scf : scfg) (acf : Anneal.cfg) (nb : Z) (random_order : bool) (n1 n2 j1 j2 : nat) (sizes : list nat),
+  forallb (level_is G LInd) xa = true -> (forall v, forallb (level_is G LInd) (xr v) = true) -> forallb (level_is G LInd) xs = true ->
+  (j1 < n1)%nat -> (j2 < n2)%nat ->
+  indep_inputs_related A G (fun v1 v2 => reindex A [j1] v1 = reindex A [j2] v2) base1 base2 ->
+  forall orders init1 init2 scales T1 T2 o1 o2,
+  shaped n1 sizes init1 -> shaped n2 sizes init2 -> own j1 init1 = own j2 init2 ->
+  tape_fits n1 sizes random_order (length init1) orders T1 -> tape_fits n2 sizes random_order (length init2) orders T2 ->
+  own_draws j1 T1 = own_draws j2 T2 ->
+  personalize_run A add mul ofQ decide
+    (graph_oracle A gadd G fs lat base1 n1 xa ha) (fun v => graph_oracle A gadd G fs lat base1 n1 (xr v) (hr v))
+    (graph_oracle A gadd G fs lat base1 n1 xs hs) scf acf nb random_order n1 orders init1 scales (flat_tape (concat T1)) = Done o1 ->
+  personalize_run A add mul ofQ decide
+    (graph_oracle A gadd G fs lat base2 n2 xa ha) (fun v => graph_oracle A gadd G fs lat base2 n2 (xr v) (hr v))
+    (graph_oracle A gadd G fs lat base2 n2 xs hs) scf acf nb random_order n2 orders init2 scales (flat_tape (concat T2)) = Done o2 ->
+  own_col j1 (o_all o1) = own_col j2 (o_all o2) /\ own_col j1 (o_hist o1) = own_col j2 (o_hist o2) /\
+  own_trace j1 (o_trace o1) = own_trace j2 (o_trace o2) /\
+  own j1 (r_vals (o_rs o1)) = own j2 (r_vals (o_rs o2)) /\
+  map (own_samp j1) (r_samp (o_rs o1)) = map (own_samp j2) (r_samp (o_rs o2)) /\ o_ast o1 = o_ast o2.
+Proof. exact chain_local_graph. Qed.
+Print Assumptions C07_chain_local_graph.
+
+(** ... instantiated on EVERY shipped graph literal with the nodes `sample` reads as the translator resolved them ([shipped_reads]:
+    attachment first, one `nll_regul_<v>_ind` per individual latent variable, summed regularity last; each holds one scalar per
+    individual): the typing side conditions are computed, none is left. *)
+Theorem C07_chain_local_shipped : forall s rs, In (s, rs) (combine shipped shipped_reads) ->
+  forall (A : Type) (add mul : A -> A -> A) (ofQ : Q -> A) (decide : A -> A -> A -> A -> A -> A -> bool)
+    (gadd : A -> A -> A) (fs : nat -> nodefun A) (base1 base2 : nat -> value A)
+    (scf : scfg) (acf : Anneal.cfg) (nb : Z) (random_order : bool) (n1 n2 j1 j2 : nat) (sizes : list nat),
+  (j1 < n1)%nat -> (j2 < n2)%nat ->
+  indep_inputs_related A (sg_graph s) (fun v1 v2 => reindex A [j1] v1 = reindex A [j2] v2) base1 base2 ->
+  forall orders init1 init2 scales T1 T2 o1 o2,
+  shaped n1 sizes init1 -> shaped n2 sizes init2 -> own j1 init1 = own j2 init2 ->
+  tape_fits n1 sizes random_order (length init1) orders T1 -> tape_fits n2 sizes random_order (length init2) orders T2 ->
+  own_draws j1 T1 = own_draws j2 T2 ->
+  personalize_run A add mul ofQ decide
+    (node_oracle A gadd (sg_graph s) fs (sg_ind_latents s) base1 n1 (reads_att rs))
+    (fun v => node_oracle A gadd (sg_graph s) fs (sg_ind_latents s) base1 n1 (reads_reg rs v))
+    (node_oracle A gadd (sg_graph s) fs (sg_ind_latents s) base1 n1 (reads_sum rs))
+    scf acf nb random_order n1 orders init1 scales (flat_tape (concat T1)) = Done o1 ->
+  personalize_run A add mul ofQ decide
+    (node_oracle A gadd (sg_graph s) fs (sg_ind_latents s) base2 n2 (reads_att rs))
+    (fun v => node_oracle A gadd (sg_graph s) fs (sg_ind_latents s) base2 n2 (reads_reg rs v))
+    (node_oracle A gadd (sg_graph s) fs (sg_ind_latents s) base2 n2 (reads_sum rs))
+    scf acf nb random_order n2 orders init2 scales (flat_tape (concat T2)) = Done o2 ->
+  well_typed (sg_graph s) = true /\
+  own_col j1 (o_all o1) = own_col j2 (o_all o2) /\ own_col j1 (o_hist o1) = own_col j2 (o_hist o2) /\
+  own_trace j1 (o_trace o1) = own_trace j2 (o_trace o2) /\
+  own j1 (r_vals (o_rs o1)) = own j2 (r_vals (o_rs o2)) /\
+  map (own_samp j1) (r_samp (o_rs o1)) = map (own_samp j2) (r_samp (o_rs o2)) /\ o_ast o1 = o_ast o2.
+Proof. exact chain_local_shipped. Qed.
+Print Assumptions C07_chain_local_shipped.
+
+(** [reads_att] / [reads_reg] / [reads_sum] address the right entries: in every shipped graph the resolved reads are, by count,
+    attachment + one per-variable regularity for each individual latent variable + the summed regularity (computed). *)
+Theorem C07_shipped_reads_shape :
+  forallb (fun p => Nat.eqb (length (snd p)) (length (sg_ind_latents (fst p)) + 2)) (combine shipped shipped_reads) = true.
+Proof. exact shipped_reads_shape. Qed.
+Print Assumptions C07_shipped_reads_shape.
+
+(** Non-vacuity on the first shipped literal: a cohort of two and its second individual alone, oracles = evaluation of the literal
+    (node functions of the announced form, one data row per individual), 3 shuffled annealed iterations over all its individual
+    latent variables: every hypothesis of [C07_chain_local_shipped] holds ([sx_base_related] is the one on the fixed inputs), both
+    runs succeed, the individual accepts some proposals, refuses others, and decides differently from the other individual. *)
+Theorem C07_chain_graph_example :
+  indep_inputs_related Q sx_G (fun v1 v2 => reindex Q [1%nat] v1 = reindex Q [0%nat] v2) (sx_base [3; 5]%Q) (sx_base [5%Q]) /\
+  In sx_pair (combine shipped shipped_reads) /\
+  (2 <= sx_m)%nat /\
+  shaped 2 sx_sizes (sx_init [3; 5]%Q) /\ shaped 1 sx_sizes (sx_init [5%Q]) /\
+  own 1 (sx_init [3; 5]%Q) = own 0 (sx_init [5%Q]) /\
+  tape_fits 2 sx_sizes true (length (sx_init [3; 5]%Q)) sx_orders (sx_T [3; 5]%Q) /\
+  tape_fits 1 sx_sizes true (length (sx_init [5%Q])) sx_orders (sx_T [5%Q]) /\
+  own_draws 1 (sx_T [3; 5]%Q) = own_draws 0 (sx_T [5%Q]) /\
+  exists o o1, sx_batch = Done o /\ sx_alone = Done o1 /\
+    own_col 1 (o_all o) = own_col 0 (o_all o1) /\
+    existsb (fun kl => existsb (fun r => nth 1 (sr_acc r) false) (snd kl)) (o_trace o) = true /\
+    existsb (fun kl => existsb (fun r => negb (nth 1 (sr_acc r) true)) (snd kl)) (o_trace o) = true /\
+    existsb (fun kl => existsb (fun r => negb (Bool.eqb (nth 0 (sr_acc r) false) (nth 1 (sr_acc r) false))) (snd kl)) (o_trace o) = true.
+Proof. split; [exact sx_base_related | exact chain_local_shipped_example]. Qed.
+Print Assumptions C07_chain_graph_example.
